@@ -857,7 +857,16 @@ func c17Emit(c *Ctx, kind string, ts []gTok, m gMode, inputs []string, imode int
 		c.Add(&Case{Desc: desc + " [Match.Groups names, GroupByNumber, GroupByName]", ModelLeg: 1702, ModelIn: in, ImplOut: impl.dynamic, Class: m.Name + "/match"})
 	}
 	if impl.re != nil {
-		if d := c17Cross(impl.re, impl.m, m.ecma()); d != "" {
+		d := ""
+		func() {
+			defer func() {
+				if p := recover(); p != nil {
+					d = fmt.Sprint("panic: ", p)
+				}
+			}()
+			d = c17Cross(impl.re, impl.m, m.ecma())
+		}()
+		if d != "" {
 			c.Add(&Case{Desc: desc, Direct: d, Guard: c17Guard(m, ts), Class: m.Name + "/cross"})
 		}
 	}
@@ -880,7 +889,7 @@ func legC17Maps(c *Ctx) {
 			c.Add(&Case{Desc: fmt.Sprintf("constant syntax.%s = %d, model assumes %d", b.name, b.got, b.want), Direct: "option bit differs from Model/Options.v"})
 		}
 	}
-	n := c.N(2500, 40000)
+	n := c.N(6000, 80000)
 	var cond, hash, optn, optx, dup, sparse, errs, matched int
 	for i := 0; i < n; i++ {
 		g := &gGen{r: c.Rng, nameSeen: map[string]bool{}}
@@ -1028,7 +1037,7 @@ func (n *linNode) flatten(ts *[]gTok, in *[]rune, absent bool) {
 func legC17Direct(c *Ctx) {
 	c.Rule("linear token lists: nested unnamed / named / explicitly numbered / non-capturing / (?n:) (?-n:) groups and (?n) (?-n) settings, each group starting with its own letter, 20% of the groups optional and absent from the input; x 4 modes; " +
 		"checked: model outputs as in c17-maps, and the text picked by Groups()[i], GroupByNumber, GroupByName, \\N, \\k<name>, (?(N)y|z), (?(name)y|z), ${N}, $N, ${name}; non-trivial = named or numbered group present (distinct by mode+pattern)")
-	n := c.N(1200, 20000)
+	n := c.N(2500, 40000)
 	var refChecks, condChecks, replChecks, absentSeen int
 	for i := 0; i < n; i++ {
 		g := &linGen{r: c.Rng}
@@ -1040,140 +1049,147 @@ func legC17Direct(c *Ctx) {
 		}
 		input := string(in)
 		for _, m := range gModes {
-			ts := base
-			if m.ordered() && hasTag(ts, tNumbered) && c.Rng.Chance(85) {
-				ts = dropNumbered(c.Rng, ts)
-			}
-			anch := append([]gTok{{Tag: tLit, N: 2000 + '^'}}, ts...)
-			impl, pat := c17Emit(c, "linear", anch, m, []string{input}, 1)
-			if impl.re == nil {
-				continue
-			}
-			desc := fmt.Sprintf("linear mode=%s pattern=%+q input=%q", m.Name, pat, input)
-			if impl.m == nil {
-				c.Add(&Case{Desc: desc, Direct: "the pattern does not match the input built from its letters", Guard: c17Guard(m, ts), Class: m.Name + "/nomatch"})
-				continue
-			}
-			mt := impl.m
-			guard := c17Guard(m, ts)
-			fail := func(d string) {
-				c.Add(&Case{Desc: desc, Direct: d, Guard: guard, Class: m.Name + "/direct"})
-			}
-			nums := impl.re.GetGroupNumbers()
-			names := impl.re.GetGroupNames()
-			var d string
-			for gi, k := range nums {
-				grp := mt.GroupByNumber(k)
-				if grp == nil {
-					d = fmt.Sprintf("GroupByNumber(%d) is nil", k)
-					break
+			func() {
+				ts := base
+				if m.ordered() && hasTag(ts, tNumbered) && c.Rng.Chance(85) {
+					ts = dropNumbered(c.Rng, ts)
 				}
-				val := grp.String()
-				if len(grp.Captures) == 0 {
-					absentSeen++
+				defer func() {
+					if p := recover(); p != nil {
+						c.Add(&Case{Desc: fmt.Sprintf("linear mode=%s pattern=%+q input=%q", m.Name, printToks(ts, m), input), Direct: fmt.Sprint("panic: ", p), Class: m.Name + "/panic"})
+					}
+				}()
+				anch := append([]gTok{{Tag: tLit, N: 2000 + '^'}}, ts...)
+				impl, pat := c17Emit(c, "linear", anch, m, []string{input}, 1)
+				if impl.re == nil {
+					return
 				}
-				tail := "=" + val
-				other := "=#"
-				// \N and \k<name> pick the same text as GroupByNumber / GroupByName
-				var refs []gTok
-				if !m.ecma() { // in ECMAScript mode \k<...> is a reference only when the pattern has named groups
-					refs = append(refs, gTok{Tag: tBackNum, N: int64(k), Angled: true, Sp: c.Rng.Intn(8)})
+				desc := fmt.Sprintf("linear mode=%s pattern=%+q input=%q", m.Name, pat, input)
+				if impl.m == nil {
+					c.Add(&Case{Desc: desc, Direct: "the pattern does not match the input built from its letters", Guard: c17Guard(m, ts), Class: m.Name + "/nomatch"})
+					return
 				}
-				if k >= 1 {
-					refs = append(refs, gTok{Tag: tBackNum, N: int64(k)})
+				mt := impl.m
+				guard := c17Guard(m, ts)
+				fail := func(d string) {
+					c.Add(&Case{Desc: desc, Direct: d, Guard: guard, Class: m.Name + "/direct"})
 				}
-				if lexicalName(names[gi]) {
-					if byName := mt.GroupByName(names[gi]); byName == nil || byName.String() != val {
-						d = fmt.Sprintf("GroupByName(%q) and GroupByNumber(%d)=%q pick different text", names[gi], k, val)
+				nums := impl.re.GetGroupNumbers()
+				names := impl.re.GetGroupNames()
+				var d string
+				for gi, k := range nums {
+					grp := mt.GroupByNumber(k)
+					if grp == nil {
+						d = fmt.Sprintf("GroupByNumber(%d) is nil", k)
 						break
 					}
-					refs = append(refs, gTok{Tag: tBackName, S: names[gi], Sp: c.Rng.Intn(10)})
-				}
-				if len(grp.Captures) > 0 && k > 0 {
-					for _, rf := range refs {
-						p2 := printToks(append(append(append([]gTok(nil), anch...), gTok{Tag: tLit, N: 2000 + '='}, rf), gTok{Tag: tLit, N: 2000 + '!'}), m)
-						re2, err := regexp2.Compile(p2, m.compileOpts()...)
-						if err != nil {
-							d = fmt.Sprintf("pattern with reference %+q does not compile: %v", p2, err)
-							break
-						}
-						re2.MatchTimeout = 2 * time.Second
-						ok1, _ := re2.MatchString(input + tail + "!")
-						ok2, _ := re2.MatchString(input + other + "!")
-						refChecks++
-						if !ok1 || ok2 {
-							d = fmt.Sprintf("reference in %+q does not designate the group GroupByNumber(%d)=%q (match with that text: %v, with other text: %v)", p2, k, val, ok1, ok2)
-							break
-						}
+					val := grp.String()
+					if len(grp.Captures) == 0 {
+						absentSeen++
 					}
-					if d != "" {
-						break
+					tail := "=" + val
+					other := "=#"
+					// \N and \k<name> pick the same text as GroupByNumber / GroupByName
+					var refs []gTok
+					if !m.ecma() { // in ECMAScript mode \k<...> is a reference only when the pattern has named groups
+						refs = append(refs, gTok{Tag: tBackNum, N: int64(k), Angled: true, Sp: c.Rng.Intn(8)})
 					}
-				}
-				// (?(N)y|z) / (?(name)y|z) test the same group
-				if k > 0 {
-					conds := []gTok{{Tag: tCondNum, N: int64(k)}}
+					if k >= 1 {
+						refs = append(refs, gTok{Tag: tBackNum, N: int64(k)})
+					}
 					if lexicalName(names[gi]) {
-						conds = append(conds, gTok{Tag: tCondName, S: names[gi]})
-					}
-					for _, cd := range conds {
-						p2 := printToks(append(append([]gTok(nil), anch...), cd, gTok{Tag: tLit, N: 2000 + 'Y'}, gTok{Tag: tLit, N: gLitBar}, gTok{Tag: tLit, N: 2000 + 'Z'}, gTok{Tag: tClose}, gTok{Tag: tLit, N: 2000 + '!'}), m)
-						re2, err := regexp2.Compile(p2, m.compileOpts()...)
-						if err != nil {
-							d = fmt.Sprintf("pattern with conditional %+q does not compile: %v", p2, err)
+						if byName := mt.GroupByName(names[gi]); byName == nil || byName.String() != val {
+							d = fmt.Sprintf("GroupByName(%q) and GroupByNumber(%d)=%q pick different text", names[gi], k, val)
 							break
 						}
-						re2.MatchTimeout = 2 * time.Second
-						okY, _ := re2.MatchString(input + "Y!")
-						okZ, _ := re2.MatchString(input + "Z!")
-						condChecks++
-						want := len(grp.Captures) > 0
-						if okY != want || okZ == want {
-							d = fmt.Sprintf("conditional in %+q: group %d participated=%v but yes-branch matched=%v, no-branch matched=%v", p2, k, want, okY, okZ)
+						refs = append(refs, gTok{Tag: tBackName, S: names[gi], Sp: c.Rng.Intn(10)})
+					}
+					if len(grp.Captures) > 0 && k > 0 {
+						for _, rf := range refs {
+							p2 := printToks(append(append(append([]gTok(nil), anch...), gTok{Tag: tLit, N: 2000 + '='}, rf), gTok{Tag: tLit, N: 2000 + '!'}), m)
+							re2, err := regexp2.Compile(p2, m.compileOpts()...)
+							if err != nil {
+								d = fmt.Sprintf("pattern with reference %+q does not compile: %v", p2, err)
+								break
+							}
+							re2.MatchTimeout = 2 * time.Second
+							ok1, _ := re2.MatchString(input + tail + "!")
+							ok2, _ := re2.MatchString(input + other + "!")
+							refChecks++
+							if !ok1 || ok2 {
+								d = fmt.Sprintf("reference in %+q does not designate the group GroupByNumber(%d)=%q (match with that text: %v, with other text: %v)", p2, k, val, ok1, ok2)
+								break
+							}
+						}
+						if d != "" {
+							break
+						}
+					}
+					// (?(N)y|z) / (?(name)y|z) test the same group
+					if k > 0 {
+						conds := []gTok{{Tag: tCondNum, N: int64(k)}}
+						if lexicalName(names[gi]) {
+							conds = append(conds, gTok{Tag: tCondName, S: names[gi]})
+						}
+						for _, cd := range conds {
+							p2 := printToks(append(append([]gTok(nil), anch...), cd, gTok{Tag: tLit, N: 2000 + 'Y'}, gTok{Tag: tLit, N: gLitBar}, gTok{Tag: tLit, N: 2000 + 'Z'}, gTok{Tag: tClose}, gTok{Tag: tLit, N: 2000 + '!'}), m)
+							re2, err := regexp2.Compile(p2, m.compileOpts()...)
+							if err != nil {
+								d = fmt.Sprintf("pattern with conditional %+q does not compile: %v", p2, err)
+								break
+							}
+							re2.MatchTimeout = 2 * time.Second
+							okY, _ := re2.MatchString(input + "Y!")
+							okZ, _ := re2.MatchString(input + "Z!")
+							condChecks++
+							want := len(grp.Captures) > 0
+							if okY != want || okZ == want {
+								d = fmt.Sprintf("conditional in %+q: group %d participated=%v but yes-branch matched=%v, no-branch matched=%v", p2, k, want, okY, okZ)
+								break
+							}
+						}
+						if d != "" {
+							break
+						}
+					}
+					// ${N}, $N, ${name}
+					reps := []string{"<${" + strconv.Itoa(k) + "}>"}
+					if !m.ecma() {
+						reps = append(reps, "<$"+strconv.Itoa(k)+">")
+					}
+					if lexicalName(names[gi]) {
+						reps = append(reps, "<${"+names[gi]+"}>")
+					}
+					for _, rp := range reps {
+						got, err := impl.re.Replace(input, rp, -1, 1)
+						replChecks++
+						want := input[:mt.RuneIndex] + "<" + val + ">" + input[mt.RuneIndex+mt.RuneLength:]
+						if err != nil || got != want {
+							d = fmt.Sprintf("Replace(%q, %q) = %q (err %v), want %q (group %d = %q)", input, rp, got, err, want, k, val)
 							break
 						}
 					}
 					if d != "" {
-						break
-					}
-				}
-				// ${N}, $N, ${name}
-				reps := []string{"<${" + strconv.Itoa(k) + "}>"}
-				if !m.ecma() {
-					reps = append(reps, "<$"+strconv.Itoa(k)+">")
-				}
-				if lexicalName(names[gi]) {
-					reps = append(reps, "<${"+names[gi]+"}>")
-				}
-				for _, rp := range reps {
-					got, err := impl.re.Replace(input, rp, -1, 1)
-					replChecks++
-					want := input[:mt.RuneIndex] + "<" + val + ">" + input[mt.RuneIndex+mt.RuneLength:]
-					if err != nil || got != want {
-						d = fmt.Sprintf("Replace(%q, %q) = %q (err %v), want %q (group %d = %q)", input, rp, got, err, want, k, val)
 						break
 					}
 				}
 				if d != "" {
-					break
+					fail(d)
 				}
-			}
-			if d != "" {
-				fail(d)
-			}
-			// names / numbers that do not exist are not substituted
-			unknown := []string{"<${nosuch}>", "<${77}>"}
-			if !m.ecma() { // ECMAScript "$77" falls back to "$7" + "7"
-				unknown = append(unknown, "<$77>")
-			}
-			for _, rp := range unknown {
-				if got, err := impl.re.Replace(input, rp, -1, 1); err == nil {
-					want := input[:mt.RuneIndex] + rp + input[mt.RuneIndex+mt.RuneLength:]
-					if got != want {
-						fail(fmt.Sprintf("Replace with unknown reference %q = %q, want it literal", rp, got))
+				// names / numbers that do not exist are not substituted
+				unknown := []string{"<${nosuch}>", "<${77}>"}
+				if !m.ecma() { // ECMAScript "$77" falls back to "$7" + "7"
+					unknown = append(unknown, "<$77>")
+				}
+				for _, rp := range unknown {
+					if got, err := impl.re.Replace(input, rp, -1, 1); err == nil {
+						want := input[:mt.RuneIndex] + rp + input[mt.RuneIndex+mt.RuneLength:]
+						if got != want {
+							fail(fmt.Sprintf("Replace with unknown reference %q = %q, want it literal", rp, got))
+						}
 					}
 				}
-			}
+			}()
 		}
 	}
 	c.Gate("back-reference checks ran", refChecks > n)
